@@ -71,7 +71,7 @@ PROPS = {
         level="proof", modules=CODEC_MODS + ["NasVerif.Props.C01"], parts=["Codec"],
         streams=[("codec-dec", 6000, 60000)], oracle="C01", trusted_base=TB_CODEC,
         rule="table-driven decode inputs (every message x slot x probe length x truncation point, reordered/duplicated/unknown IEIs, malformed edits, 70 kB runs); non-trivial = distinct input the implementation decodes successfully",
-        assumptions=["Go runtime allocation rounding and reflect temporaries are measured against a bound (512*len + 4*64KiB + 16KiB), not proved"],
+        assumptions=["the allocation theorem counts the octets the decoder requests (make + optional-element structs); Go runtime rounding and encoding/binary / reflect temporaries are measured against a bound (512*len + 4*64KiB + 16KiB), not proved"],
     ),
     "C02": dict(
         level="proof", modules=CODEC_MODS + ["NasVerif.Props.C02"], parts=["Codec"],
